@@ -334,10 +334,13 @@ Section StepSafety.
       let H1 := fresh "Hm" in let H2 := fresh "Hd" in destruct (pop_n_mid _ _ _ _ Hm Hp) as [H1 H2]; clear Hp
     end.
 
-  Ltac q_rok :=
+  Ltac q_rok0 :=
     first [ apply func_invoke_ok | apply native_call_ok | apply load_name_ok | apply attr_get_ok | apply attr_set_ok
           | apply item_get_ok | apply item_set_ok | apply slice_get_ok | apply slice_set_ok | apply bin_op_ok
           | apply push_range_ok ].
+  Ltac q_rok :=
+    first [ q_rok0 | exact Logic.I
+          | match goal with H : _ = ?r |- rok ?r => rewrite <- H; q_rok0 end ].
 
   Ltac q_ready :=
     first [ apply mid_ready; assumption
@@ -355,7 +358,8 @@ Section StepSafety.
       | match goal with
         | |- Q (if ?b then _ else _) => destruct b eqn:?
         | |- Q (match ?x with _ => _ end) => destruct x eqn:?; q_fact
-        end ]).
+        end
+      | exfalso; congruence ]).
 
   Ltac q_start :=
     intros o m len Hm Hwf Hsp; unfold step; cbn [i_op i_arg];
@@ -375,5 +379,134 @@ Section StepSafety.
     In op [OpPushInt; OpPushFlt; OpPushStr; OpPushArr; OpPushDict; OpPushComputed; OpPushFunc; OpPushNull; OpPushThis;
            OpPushRange; OpPushLast] -> step_safe op.
   Proof. by_cases ltac:(q_start; q_go). Qed.
+
+
+  Lemma step_arith_no_panic : forall op,
+    In op [OpAdd; OpSub; OpMul; OpDiv; OpMod; OpPow; OpNullCoalescing; OpLt; OpLe; OpEq; OpNe; OpGe; OpGt;
+           OpBitAnd; OpBitOr; OpAnd; OpOr; OpNeg; OpPos] -> step_safe op.
+  Proof. by_cases ltac:(q_start; q_go). Qed.
+
+  Lemma step_invoke_no_panic : forall op, In op [OpInvoke; OpInvokeSelf] -> step_safe op.
+  Proof. by_cases ltac:(q_start; q_go). Qed.
+
+  Lemma step_item_attr_slice_no_panic : forall op,
+    In op [OpItemGet; OpItemSet; OpAttrGet; OpAttrSet; OpSliceGet; OpSliceSet] -> step_safe op.
+  Proof. by_cases ltac:(q_start; q_go). Qed.
+
+  Lemma step_pop_misc_no_panic : forall op,
+    In op [OpPop; OpPopN; OpNop; OpRet; OpHalt; OpPushGlobal; OpStoreGlobal; OpUnknown; OpDiceCustom] -> step_safe op.
+  Proof. by_cases ltac:(q_start; q_go). Qed.
+
+  Lemma step_st_no_panic : forall op, In op [OpStSet; OpStMod; OpStX0; OpStX1] -> step_safe op.
+  Proof. by_cases ltac:(q_start; q_go). Qed.
+
+
+  Lemma step_jump_no_panic : forall op, In op [OpJmp; OpJe; OpJne; OpJeDup] -> step_safe op.
+  Proof.
+    by_cases ltac:(q_start; apply Z.leb_le in Hwf; (rewrite Z2Nat.id in Hwf by (exact Hpc0)); q_go).
+  Qed.
+
+  Lemma step_load_store_no_panic : forall op, In op [OpLd; OpLdD; OpLdRaw; OpStore; OpStoreLocal] -> step_safe op.
+  Proof. by_cases ltac:(q_start; q_go). Qed.
+
+
+  Lemma step_dice_no_panic : forall op,
+    In op [OpDiceInit; OpDiceSetTimes; OpDiceSetKeepLow; OpDiceSetKeepHigh; OpDiceSetDropLow; OpDiceSetDropHigh;
+           OpDiceSetMin; OpDiceSetMax; OpDice; OpDiceFate; OpCocPenalty; OpCocBonus; OpMarkDetail] -> step_safe op.
+  Proof. by_cases ltac:(q_start; q_go). Qed.
+
+  Lemma step_wod_dc_no_panic : forall op,
+    In op [OpDiceWod; OpWodInit; OpWodPool; OpWodPoints; OpWodThreshold; OpWodThresholdQ;
+           OpDiceDC; OpDcInit; OpDcPool; OpDcPoints] -> step_safe op.
+  Proof. by_cases ltac:(q_start; q_go). Qed.
+
+
+  Lemma blocks_head : forall fr t rest, mid fr -> fr_blocks fr = t :: rest ->
+    t < stack_size /\ Forall (fun t => t < stack_size) rest.
+  Proof. unfold mid, frame_ok; intros fr t rest H Hb. rewrite Hb in H. destruct H as ((_ & _ & _ & H & _) & _). inversion H; auto. Qed.
+  Lemma fblocks_head : forall fr t rest, mid fr -> fr_fblocks fr = t :: rest ->
+    t < stack_size /\ Forall (fun t => t < stack_size) rest.
+  Proof. unfold mid, frame_ok; intros fr t rest H Hb. rewrite Hb in H. destruct H as ((_ & _ & _ & _ & H & _) & _). inversion H; auto. Qed.
+
+  Lemma step_block_no_panic : forall op, In op [OpBlockPush; OpBlockPop; OpFstrPush; OpFstrPop] -> step_safe op.
+  Proof.
+    intros op Hin; cbn [In] in Hin. destruct Hin as [<-|[<-|[<-|[<-|[]]]]].
+    - q_start; q_go.
+    - q_start. destruct (fr_blocks (m_fr m)) as [|t rest] eqn:Hb; [exact Logic.I|].
+      destruct (blocks_head _ _ _ Hm Hb) as [Ht Hr].
+      destruct (set_top (m_fr m) t) as [fr1|] eqn:Hs; [|exact Logic.I].
+      destruct (set_top_mid _ _ _ Hm Ht Hs) as (M1 & D1 & B1 & F1).
+      apply Q_do_push. unfold mid, ready in *. fr_unfold. intuition lia.
+    - q_start; q_go.
+    - q_start. destruct (fr_fblocks (m_fr m)) as [|t rest] eqn:Hb; [exact Logic.I|].
+      destruct (fblocks_head _ _ _ Hm Hb) as [Ht Hr]. cbv zeta.
+      assert (Hfin : forall v fr1, mid fr1 ->
+                Q (match set_top fr1 t with
+                   | None => SUnsup "uninit slot"
+                   | Some fr2 => do_push v (fr_set_blocks fr2 (fr_blocks fr2) rest) (m_w m)
+                   end)).
+      { intros v fr1 M. destruct (set_top fr1 t) as [fr2|] eqn:Hs; [|exact Logic.I].
+        destruct (set_top_mid _ _ _ M Ht Hs) as (M1 & D1 & B1 & F1).
+        apply Q_do_push. unfold mid, ready in *. fr_unfold. intuition lia. }
+      destruct (t =? fr_top (m_fr m)); [apply Hfin; assumption|].
+      destruct (pop (m_fr m)) as [v fr1] eqn:Hp. destruct (pop_mid _ _ _ Hm Hp) as [M1 _]. apply Hfin; assumption.
+  Qed.
+
+  Lemma step_ldfs_no_panic : step_safe OpLdFs.
+  Proof.
+    q_start. apply Z.leb_le in Hwf.
+    destruct ((0 <? z) && (fr_top (m_fr m) - z <? 0)); [exact Logic.I|].
+    match goal with |- Q (?f ?l0 ?a0) => cut (forall l acc, Q (f l acc)); [intros Hx; apply Hx|] end.
+    induction l as [|v l IH]; intros acc; cbv beta iota.
+    - assert (Ht : fr_top (m_fr m) - z < stack_size) by (destruct Hm as (_ & Ht & _); lia).
+      replace (stack_size <=? fr_top (m_fr m) - z) with false by (symmetry; apply Z.leb_gt; exact Ht).
+      destruct (set_top (m_fr m) (fr_top (m_fr m) - z)) as [fr1|] eqn:Hs; [|exact Logic.I].
+      destruct (set_top_mid _ _ _ Hm Ht Hs) as (M1 & _). apply Q_do_push, mid_ready, M1.
+    - destruct (to_string _ _ v); [apply IH|exact Logic.I].
+  Qed.
+
+  Lemma span_in_substring : forall s b e, span_in (Some s) b e = true -> substring_b (bytes_of s) b e <> None.
+  Proof.
+    unfold span_in, substring_b; intros s b e H. rewrite !andb_true_iff, !Z.leb_le in H. destruct H as [[H1 H2] H3].
+    replace ((b <? 0) || (e <? b) || (zlen (bytes_of s) <? e)) with false; [discriminate|].
+    symmetry. rewrite !orb_false_iff, !Z.ltb_ge. lia.
+  Qed.
+
+  Lemma step_def_expr_no_panic : step_safe OpPushDefExpr.
+  Proof.
+    q_start. destruct (negb _); [exact Logic.I|].
+    destruct (push (VInt 100) (m_fr m)) as [fr1|] eqn:Hp.
+    2:{ destruct (push_some (VInt 100) (m_fr m)) as [x Hx]; [apply Hm|congruence]. }
+    assert (P1 : post fr1 /\ fr_details fr1 = fr_details (m_fr m) /\ fr_src fr1 = fr_src (m_fr m)).
+    { unfold push in Hp. destruct (stack_size <=? fr_top (m_fr m)) eqn:Ht; [discriminate|]. apply Z.leb_gt in Ht.
+      injection Hp as <-. unfold mid, post in *. fr_unfold. intuition lia. }
+    destruct P1 as (P1 & P2 & P3).
+    destruct (fr_src fr1) as [s|] eqn:Hs; [|apply Q_next, P1].
+    destruct (fr_details fr1) as [|[b e] ds] eqn:Hd; [apply Q_next, P1|].
+    destruct (fr_dice fr1); [apply Q_next, P1|].
+    destruct (substring_b (bytes_of s) b e) eqn:Hsub; [apply Q_next, P1|].
+    exfalso. destruct P1 as ((_ & S1 & _ & _ & _ & D1) & _). rewrite Hd in D1. inversion D1 as [|? ? D2 _].
+    unfold span_ok in D2. cbn [fst snd] in D2. rewrite <- S1 in D2. rewrite Hs in D2. exact (span_in_substring _ _ _ D2 Hsub).
+  Qed.
+
+  (* the step theorem: every opcode *)
+  Theorem C01_step_no_panic_partial : forall op, step_safe op.
+  Proof.
+    intros op.
+    destruct op;
+      first [ apply step_push_no_panic; cbn; tauto
+            | apply step_arith_no_panic; cbn; tauto
+            | apply step_invoke_no_panic; cbn; tauto
+            | apply step_item_attr_slice_no_panic; cbn; tauto
+            | apply step_pop_misc_no_panic; cbn; tauto
+            | apply step_st_no_panic; cbn; tauto
+            | apply step_jump_no_panic; cbn; tauto
+            | apply step_load_store_no_panic; cbn; tauto
+            | apply step_dice_no_panic; cbn; tauto
+            | apply step_wod_dc_no_panic; cbn; tauto
+            | apply step_block_no_panic; cbn; tauto
+            | apply step_ldfs_no_panic
+            | apply step_def_expr_no_panic ].
+  Qed.
 
 End StepSafety.
